@@ -15,6 +15,9 @@ ASSUMPTIONS = [
 ]
 
 
+generate = W.generate   # regenerates coq/Gen/Skeleton.v (synchronisation skeleton) before the Coq build
+
+
 def setup():
     W.setup()
 
